@@ -322,7 +322,7 @@ pub fn show(e: &E, ops: &[OpDef]) -> String {
     }
 }
 
-fn render(e: &SimpleExpr, d: Dialect) -> Result<String, String> {
+pub fn render(e: &SimpleExpr, d: Dialect) -> Result<String, String> {
     let q = Query::select().expr(e.clone()).to_owned();
     catch(|| match d {
         Dialect::Mysql => q.to_string(MysqlQueryBuilder),
@@ -346,7 +346,7 @@ fn value_table(db: &Db) {
 }
 
 /// Run a SELECT of one expression over the value table; None = the engine rejects it.
-fn eval_sqlite(expr_sql: &str) -> Option<Vec<String>> {
+pub fn eval_sqlite(expr_sql: &str) -> Option<Vec<String>> {
     DB.with(|c| {
         let mut g = c.borrow_mut();
         let db = g.get_or_insert_with(|| {
@@ -414,7 +414,7 @@ pub fn check_one(e: &E, d: Dialect, ops: &[OpDef], st: Option<&Stats>) -> Result
 
 /// node constructors with `k` expression slots (for enumeration)
 #[derive(Clone, Debug)]
-enum Ctor {
+pub enum Ctor {
     Bin(usize),
     Not,
     IsNull(bool),
@@ -457,7 +457,7 @@ fn ctors(ops: &[OpDef], only: Option<&[usize]>) -> Vec<Ctor> {
 }
 
 /// all trees with exactly n operator nodes
-fn trees(n: usize, cs: &[Ctor], memo: &mut BTreeMap<usize, Vec<E>>) -> Vec<E> {
+pub fn trees(n: usize, cs: &[Ctor], memo: &mut BTreeMap<usize, Vec<E>>) -> Vec<E> {
     if let Some(v) = memo.get(&n) {
         return v.clone();
     }
